@@ -126,9 +126,9 @@ def tokenTransferFrom (g : Ledger) (owner dst amt : Nat) : Except Err Ledger :=
   else if get g.allow owner < amt then .error (.guard 91)
   else move { g with allow := set g.allow owner (get g.allow owner - amt) } owner dst amt
 
-/-- bank `Send` (cw-multi-test filters zero coins out, so a zero send succeeds) -/
+/-- bank `Send` (cw-multi-test filters zero coins out and rejects an empty send) -/
 def bankSend (g : Ledger) (src dst amt : Nat) : Except Err Ledger :=
-  if amt = 0 then .ok g else move g src dst amt
+  if amt = 0 then .error (.guard 90) else move g src dst amt
 
 end Ledger
 
@@ -231,7 +231,7 @@ def execMsg (fuel : Nat) (w : World) (sender : Nat) (m : Msg) : Except Err (Worl
         pure ({ w with ledger := g, log := w.log ++ [(owner, to, amt)] }, .none)
     | .bankSend to amt => do
         let g ← w.ledger.bankSend sender to amt
-        pure ({ w with ledger := g, log := if amt = 0 then w.log else w.log ++ [(sender, to, amt)] }, .none)
+        pure ({ w with ledger := g, log := w.log ++ [(sender, to, amt)] }, .none)
     | .ifWithdraw amt =>
         -- insurance fund `withdraw`: only the engine; pays the engine; ReplyOn::Never
         if w.engine.cfg.insuranceFund ≠ IFUND then .error (.guard 95)
@@ -315,9 +315,10 @@ def applyTx (w0 : World) (env : Env) (sender : Nat) (funds : Engine.Funds) (tx :
   let w := { w0 with env := env, log := [] }
   match tx with
   | .engine m => do
-      -- `execute_wasm`: first move the attached cash (native collateral only)
-      let g ← if w.engine.cfg.native then w.ledger.bankSend sender ENGINE funds.amount else pure w.ledger
-      let w := { w with ledger := g }
+      -- `execute_wasm`: first move the attached cash (native collateral only; nothing attached = no send)
+      let w ← if w.engine.cfg.native ∧ funds.amount ≠ 0 then
+          (execMsg FUEL w sender (.bankSend ENGINE funds.amount)).map (·.1)
+        else pure w
       let (e', subs) ← Engine.execute w.q w.engine env sender funds m
       execSubs FUEL { w with engine := e' } ENGINE subs
   | .vammSwapInput v dir amt lim cgo => (execMsg FUEL w sender (.vammSwapInput v dir amt lim cgo)).map (·.1)
